@@ -243,7 +243,7 @@ def r9_3(ctx):
 
 
 def r9_4(ctx):
-    ctx.rule("R9.4", "text measure: for Text the minimum is the largest cell_len over text.split() (widest word) and the maximum the largest cell_len over text.splitlines() (widest line) - the cell width is measured for every candidate, not for the candidate with most characters")
+    ctx.rule("R9.4", "text measure: for Text the minimum is the largest cell_len over text.split() (widest word) and the maximum the largest cell_len over the lines wrap() will produce, i.e. the pieces between the new lines Text.wrap splits on (text.split('\\n')) - str.splitlines() also breaks on U+2028, U+0085 and \\x1c-\\x1e, under-measures such a text and lets it wrap at its own reported maximum. The cell width is measured for every candidate, not for the candidate with most characters")
     f = ctx.repo.fn("text:Text.__rich_measure__")
     from ..astutil import inline as _inl94, single_defs as _sdf94
     sd94 = _sdf94(f.node)
@@ -326,13 +326,31 @@ def r9_4(ctx):
     if not rets:
         raise AnalysisError("Text.__rich_measure__: final Measurement(min, max) of two names not found")
     mn, mx = (a.id for a in rets[-1].value.args)
-    for var, want, what in ((mn, "text.split()", "widest word"), (mx, "text.splitlines()", "widest line")):
+    # premise: the separator Text.wrap splits paragraphs on
+    wr = ctx.repo.fn("text:Text.wrap")
+    sp_fn = ctx.repo.fn("text:Text.split")
+    sp_defaults = sp_fn.node.args.defaults
+    sp_default = sp_defaults[0].value if sp_defaults and isinstance(sp_defaults[0], ast.Constant) and len(sp_defaults) == len(sp_fn.node.args.args) - 1 else None
+    seps = set()
+    for c in walk_local(wr.node):
+        if isinstance(c, ast.Call) and isinstance(c.func, ast.Attribute) and c.func.attr == "split" and norm(c.func.value) == "self":
+            a0 = c.args[0] if c.args else next((k.value for k in c.keywords if k.arg == "separator"), None)
+            seps.add(a0.value if isinstance(a0, ast.Constant) else (sp_default if a0 is None else norm(a0)))
+    if seps != {"\n"}:
+        raise AnalysisError(f"Text.wrap: paragraphs are split on {sorted(seps)!r}; R9.4 compares the measure with a wrap that splits on the new line only")
+    for var, wants, what in ((mn, ("text.split()",), "widest word"), (mx, ("text.split('\\n')",), "widest line")):
         src, ok, node = found.get(var, (None, False, rets[-1]))
         if src is not None:
             src = src.replace("self.plain.", "text.")
-        ctx.check(ok and src == want, f.fq, short(node), f"{f.module.relpath}:{node.lineno}", f"{what} = max(cell_len(x) for x in {want})",
-                  f"the {what} is computed as `{short(node)}`: it must be the maximum of cell_len over every element of {want}; picking the element with most characters first under-measures text mixing single- and double-width characters, so the text wraps at its own reported maximum")
-    measured = {full(c.func.value) for c in walk_local(f.node) if isinstance(c, ast.Call) and isinstance(c.func, ast.Attribute) and c.func.attr in ("split", "splitlines") and not c.args}
+        where = f"{f.module.relpath}:{node.lineno}"
+        if what == "widest line" and src in ("text.splitlines()", "text.splitlines(False)"):
+            ctx.violation(f.fq, short(node), where, f"the widest line is taken over str.splitlines(), which also breaks on U+2028, U+0085 and \\x1c-\\x1e while Text.wrap splits on '\\n' only: Text('aa\\u2028bb cc') reports a maximum of 5 for a 7-cell line and is wrapped when rendered at that maximum")
+            continue
+        if src is not None and ok and src not in wants:
+            raise AnalysisError(f"Text.__rich_measure__: the {what} is measured over `{src}`; cannot tell whether those are the pieces wrap() works with")
+        ctx.check(ok and src in wants, f.fq, short(node), where, f"{what} = max(cell_len(x) for x in {wants[0]})",
+                  f"the {what} is computed as `{short(node)}`: it must be the maximum of cell_len over every element of {wants[0]}; picking the element with most characters first under-measures text mixing single- and double-width characters, so the text wraps at its own reported maximum")
+    measured = {full(c.func.value) for c in walk_local(f.node) if isinstance(c, ast.Call) and isinstance(c.func, ast.Attribute) and c.func.attr in ("split", "splitlines")}
     ctx.check(measured == {"self.plain"}, f.fq, "text = self.plain", f.where, "measured string is the plain text", f"the measured string is {sorted(measured)}, not self.plain")
 
 
